@@ -28,7 +28,11 @@ use std::sync::atomic::Ordering::{Acquire, Relaxed};
 use crossbeam_utils::CachePadded;
 use derive_where::derive_where;
 use fixedbitset::FixedBitSet;
-use parking_lot::{Condvar, Mutex, MutexGuard};
+use parking_lot::Condvar;
+#[cfg(not(oxidd_verif))]
+use parking_lot::{Mutex, MutexGuard};
+#[cfg(oxidd_verif)]
+use crate::util::verif_lock::{Mutex, MutexGuard};
 use rustc_hash::FxHasher;
 
 use oxidd_core::error::{DuplicateVarName, OutOfMemory};
@@ -130,7 +134,7 @@ where
     manager: RwLock<Manager<'id, N, ET, TM, R, MD, TERMINALS>>,
     terminal_manager: TM,
     state: CachePadded<Mutex<SharedStoreState>>,
-    gc_signal: (Mutex<GCSignal>, Condvar),
+    gc_signal: (parking_lot::Mutex<GCSignal>, Condvar),
     workers: crate::workers::Workers,
 }
 
@@ -1272,9 +1276,13 @@ where
                 .as_secs()
         );
 
+        #[cfg(oxidd_verif)]
+        oxidd_core::verif::point(oxidd_core::verif::class::GC_PHASE, 0);
         if !self.reorder_gc_prepared {
             self.data.pre_gc(self);
         }
+        #[cfg(oxidd_verif)]
+        oxidd_core::verif::point(oxidd_core::verif::class::GC_PHASE, 1);
 
         let store = self.store();
         let mut collected = 0;
@@ -1287,6 +1295,8 @@ where
             collected -= level.len() as u32;
         }
         collected += store.terminal_manager.gc();
+        #[cfg(oxidd_verif)]
+        oxidd_core::verif::point(oxidd_core::verif::class::GC_PHASE, 2);
 
         if !self.reorder_gc_prepared {
             // SAFETY: We called `pre_gc`, the garbage collection is done.
@@ -2303,7 +2313,7 @@ pub fn new_manager<
             reorder_gc_prepared: false,
         }),
         terminal_manager: TMC::T::<'static>::with_capacity(terminal_node_capacity),
-        gc_signal: (Mutex::new(GCSignal::RunGc), Condvar::new()),
+        gc_signal: (parking_lot::Mutex::new(GCSignal::RunGc), Condvar::new()),
         workers: crate::workers::Workers::new(threads),
     });
 
@@ -2458,6 +2468,11 @@ impl<
 {
     #[inline]
     fn drop(&mut self) {
+        #[cfg(oxidd_verif)]
+        oxidd_core::verif::point(
+            oxidd_core::verif::class::HANDLE_DROP,
+            self.edge.node_id(),
+        );
         // SAFETY: `self.edge` is never used again.
         let edge = unsafe { ManuallyDrop::take(&mut self.edge) };
         self.store.0.drop_edge(edge);
@@ -2475,6 +2490,11 @@ impl<
 {
     #[inline]
     fn clone(&self) -> Self {
+        #[cfg(oxidd_verif)]
+        oxidd_core::verif::point(
+            oxidd_core::verif::class::HANDLE_CLONE,
+            self.edge.node_id(),
+        );
         Self {
             store: self.store.clone(),
             edge: ManuallyDrop::new(self.store.0.clone_edge(&self.edge)),
